@@ -27,6 +27,27 @@ func execsBlock(u *Universe, call ssa.CallInstruction) bool {
 			return true
 		}
 	}
+	// a named helper split off the calling function (all its call sites are in this function) that runs the block
+	if h := call.Common().StaticCallee(); h != nil && h.Blocks != nil && h.Pkg == call.Parent().Pkg && h.Parent() == nil {
+		if len(u.callsNamed(h, blockExecIDs...)) > 0 {
+			sites := u.staticCallers(h)
+			only := len(sites) > 0
+			top := call.Parent()
+			for top.Parent() != nil {
+				top = top.Parent()
+			}
+			for _, cs := range sites {
+				t2 := cs.Parent()
+				for t2.Parent() != nil {
+					t2 = t2.Parent()
+				}
+				if t2 != top {
+					only = false
+				}
+			}
+			return only
+		}
+	}
 	return false
 }
 
@@ -137,10 +158,74 @@ func checkC02(c *Ctx) {
 			sigPred[f] = idx
 		}
 	}
+	// loop-signal resolvers: helpers `func(err error) (keepLooping bool, loopErr error)` that answer (true, nil) for
+	// a continue signal, (false, nil) for a break signal and (false, err) for everything else
+	sigResolver := map[*ssa.Function]int{}
+	for _, f := range u.srcFuncs("pkg/exec") {
+		if idx, ok := loopSignalResolver(f, cont, brk); ok {
+			sigResolver[f] = idx
+		}
+	}
+	resolverCall := func(v ssa.Value) (*ssa.Call, bool) {
+		ex, ok := v.(*ssa.Extract)
+		if !ok {
+			return nil, false
+		}
+		call, ok := ex.Tuple.(*ssa.Call)
+		if !ok {
+			return nil, false
+		}
+		_, isRes := sigResolver[call.Call.StaticCallee()]
+		return call, isRes && call.Call.StaticCallee() != nil
+	}
 	for _, f := range u.srcFuncs("pkg/exec") {
 		fn := u.fname(f)
 		if _, isPred := sigPred[f]; isPred {
 			continue
+		}
+		if _, isRes := sigResolver[f]; isRes {
+			continue
+		}
+		// tests of a resolver's keep-looping answer
+		for _, b := range f.Blocks {
+			ifi, ok := b.Instrs[len(b.Instrs)-1].(*ssa.If)
+			if !ok {
+				continue
+			}
+			ex, isEx := ifi.Cond.(*ssa.Extract)
+			call, isRes := resolverCall(ifi.Cond)
+			if !isEx || !isRes || ex.Index != 0 {
+				continue
+			}
+			if !drivers[fn] {
+				R.viol("C02.signals", fn+":inspects-loop-signal", u.pos(ifi.Pos()), "a function other than the loop drivers inspects the continue/break signal: the signal would not reach the innermost enclosing loop")
+				continue
+			}
+			var B ssa.Instruction
+			for _, in := range instrsOf(f) {
+				if c2, ok := in.(ssa.CallInstruction); ok && execsBlock(u, c2) && loopBlock(in.Block()) && in.Block().Dominates(b) {
+					B = in
+				}
+			}
+			if B == nil || call.Call.Args[sigResolver[call.Call.StaticCallee()]] != errResult(B.(ssa.CallInstruction)) {
+				R.viol("C02.signals", fn+":signal-test", u.pos(ifi.Pos()), "signal test is not associated with a block execution")
+				continue
+			}
+			site := siteName(u, f, B.(ssa.CallInstruction))
+			isB := func(x ssa.Instruction) bool { return x == B }
+			isRet := func(x ssa.Instruction) bool { _, ok := x.(*ssa.Return); return ok }
+			w := reachableAvoiding(b.Succs[0], 0, isB, isRet)
+			R.check(w != nil, "C02.signals", fn+":"+site+":continue", u.pos(ifi.Pos()), "继续循环 starts the next pass of this loop", "继续循环 does not lead to the next pass of its loop")
+			// not keep-looping: the loop is left returning the resolver's error answer (nil for a break, the error itself otherwise)
+			okBrk := reachableAvoiding(b.Succs[1], 0, isB, nil) == nil
+			for _, rr := range returnsReachable(b.Succs[1], 0, isB) {
+				ev := errorOperand(rr.Ret)
+				e2, isE2 := ev.(*ssa.Extract)
+				if !isE2 || e2.Tuple != ssa.Value(call) || e2.Index != 1 {
+					okBrk = false
+				}
+			}
+			R.check(okBrk, "C02.signals", fn+":"+site+":break", u.pos(ifi.Pos()), "结束循环 leaves this loop returning no error", "结束循环 does not leave its loop cleanly (returns an error or continues looping)")
 		}
 		for _, b := range f.Blocks {
 			ifi, ok := b.Instrs[len(b.Instrs)-1].(*ssa.If)
@@ -235,7 +320,9 @@ func checkC02(c *Ctx) {
 							continue
 						}
 						ev := errorOperand(rr.Ret)
-						if ev == errV {
+						if rc, isRes := resolverCall(ev); isRes && rc.Call.Args[sigResolver[rc.Call.StaticCallee()]] == errV {
+							found = true // (false, err) for everything that is not a loop signal - checked in the resolver
+						} else if ev == errV {
 							found = true
 						} else if ev == nil || !isNilConst(ev) {
 							okOther = false
@@ -512,4 +599,91 @@ func signalPredicate(f *ssa.Function) (int, bool) {
 		}
 	}
 	return kind, kind >= 0
+}
+
+// loopSignalResolver: f(err) (bool, error) with exactly these answers: on the continue-signal edge (true, nil), on
+// the break-signal edge (false, nil), everywhere else (false, err). Returns the index of the error parameter.
+func loopSignalResolver(f *ssa.Function, cont, brk int64) (int, bool) {
+	res := f.Signature.Results()
+	if res.Len() != 2 || !isErrorType(res.At(1).Type()) || len(f.Blocks) == 0 {
+		return 0, false
+	}
+	if b, ok := res.At(0).Type().Underlying().(*types.Basic); !ok || b.Kind() != types.Bool {
+		return 0, false
+	}
+	errIdx := -1
+	for i, p := range f.Params {
+		if isErrorType(p.Type()) {
+			errIdx = i
+		}
+	}
+	if errIdx < 0 {
+		return 0, false
+	}
+	// edges on which the signal kind is known
+	kindEdge := map[*ssa.BasicBlock]int64{} // block dominated by the true edge of SigType == k
+	type kedge struct {
+		from, to *ssa.BasicBlock
+		k        int64
+	}
+	var kedges []kedge
+	for _, b := range f.Blocks {
+		ifi, ok := b.Instrs[len(b.Instrs)-1].(*ssa.If)
+		if !ok {
+			continue
+		}
+		bo, ok := ifi.Cond.(*ssa.BinOp)
+		if !ok || bo.Op != token.EQL {
+			continue
+		}
+		base, isSig := fieldLoad(bo.X, "SigType")
+		k, isK := bo.Y.(*ssa.Const)
+		if !isSig || !isK || !namedTypeIs(base.Type(), "pkg/error", "Signal") {
+			continue
+		}
+		kedges = append(kedges, kedge{b, b.Succs[0], k.Int64()})
+	}
+	_ = kindEdge
+	seen := map[string]bool{}
+	for _, b := range f.Blocks {
+		ret, ok := b.Instrs[len(b.Instrs)-1].(*ssa.Return)
+		if !ok {
+			continue
+		}
+		kind := "other"
+		for _, ke := range kedges {
+			if edgeDominates(ke.from, ke.to, b) {
+				switch ke.k {
+				case cont:
+					kind = "cont"
+				case brk:
+					kind = "brk"
+				default:
+					return 0, false
+				}
+			}
+		}
+		kb, isKB := retValue(ret, 0).(*ssa.Const)
+		if !isKB || kb.Value == nil || kb.Value.Kind() != constant.Bool {
+			return 0, false
+		}
+		keep := constant.BoolVal(kb.Value)
+		ev := retValue(ret, 1)
+		switch kind {
+		case "cont":
+			if !keep || !isNilConst(ev) {
+				return 0, false
+			}
+		case "brk":
+			if keep || !isNilConst(ev) {
+				return 0, false
+			}
+		default:
+			if keep || ev != ssa.Value(f.Params[errIdx]) {
+				return 0, false
+			}
+		}
+		seen[kind] = true
+	}
+	return errIdx, seen["cont"] && seen["brk"] && seen["other"]
 }
